@@ -1050,7 +1050,12 @@ def fam_targeted(rng, kind):
         val.clear()
         val.update(allowed)
         val.update(val_items)
-    for k in rng.sample(["extra", "u", "uu", "w_1", "Z9", "_x", "été", "к"], rng.randint(1, 3)):
+    # the unknown keys: identifier-like ones, none identifier-like (hyphen, blank, dot, empty, quote: the key list the regular
+    # expression extracts from the message is then EMPTY), or a mixture
+    shape = rng.random()
+    ident = rng.sample(["extra", "u", "uu", "w_1", "Z9", "_x", "été", "к"], rng.randint(1, 3))
+    odd = rng.sample(["learning-rate", "a b", "x.y", "", "-", "a-b", "it's", "☃", " ", "a,b", "(k)"], rng.randint(1, 3))
+    for k in (ident if shape < 0.6 else odd if shape < 0.85 else ident[:1] + odd[:2]):
       if k not in props:
         val[k] = rng.choice([1, None, "s", [0]])
   else:
